@@ -167,6 +167,7 @@ R_CLASS = "from_dict: result is a Tree"
 R_TREE = "from_dict(to_dict_list()) reproduces the tree"
 R_JSON = "from_dict(json.loads(json.dumps(to_dict_list()))) reproduces the tree"
 R_NODE = "Node.from_dict() below a childless node rebuilds the branch"
+R_PARENT = "from_dict: the mapper is called with the parent node of the node being created"
 TIMEOUT = "to_dict_list()/from_dict() terminates"
 
 
@@ -264,7 +265,8 @@ def _below_root(exp: Desc) -> Desc:
 
 def check_roundtrip(fam: DFam, tree, lst) -> list:
     exp = describe(tree)
-    kw = {"mapper": fam.de} if fam.de is not None else {}
+    rec = c05.ParentRecorder(fam.de) if fam.de is not None else None
+    kw = {"mapper": rec} if rec is not None else {}
     diffs = []
     variants = [(R_TREE, lambda: lst)]
     variants.append((R_JSON, lambda: json.loads(json.dumps(lst))))
@@ -290,6 +292,9 @@ def check_roundtrip(fam: DFam, tree, lst) -> list:
             continue
         for c, t in _strip(c05.compare(exp, got)):
             diffs.append((clause, f"{c}: {t}; dict list {clip(lst, 200)}"))
+        if rec is not None:
+            diffs += [(R_PARENT, t) for t in rec.misplaced(t2)[:2]]
+            rec.calls.clear()
     # Node.from_dict below an existing node
     try:
         with time_limit(10):
@@ -299,6 +304,8 @@ def check_roundtrip(fam: DFam, tree, lst) -> list:
         got = describe(t3)
         for c, t in _strip(c05.compare(_below_root(exp), got)):
             diffs.append((R_NODE, f"{c}: {t}"))
+        if rec is not None:
+            diffs += [(R_PARENT, "[Node.from_dict] " + t) for t in rec.misplaced(t3)[:2]]
     except _Timeout:
         diffs.append((TIMEOUT, "Node.from_dict() did not return within 10 s"))
     except Exception as e:  # noqa: BLE001
